@@ -1,11 +1,11 @@
 package engines
 
 import (
-	"sort"
 	"fmt"
 	"os"
 	"path/filepath"
 	"regexp"
+	"sort"
 	"strings"
 	"time"
 
@@ -264,6 +264,15 @@ func c13Exhaustive(tier string) []corr.Case {
 			l2 = append(l2, "mkdir "+h(p)+" 493", "removeall "+h(p), "snapshot")
 			cases = append(cases, corr.Case{Lines: l2})
 		}
+		// a name that was a directory and is a regular-file name later (the filter must judge it by what it is NOW)
+		for _, fl := range []int{66, 0x241, 0x42 | 0x400} {
+			l := append([]string{"case re " + pid}, setup...)
+			l = append(l, "mkdirall "+h("/w/cache")+" 493", "stat "+h("/w/cache"), "open "+h("/w/cache"), "removeall "+h("/w"), "mkdir "+h("/w")+" 493",
+				fmt.Sprintf("openfile %s %d 420", h("/w/cache"), fl), "create "+h("/w/cache"), "stat "+h("/w/cache"), "chmod "+h("/w/cache")+" 384", "snapshot",
+				"mkdir "+h("/w/tmpdir")+" 493", "stat "+h("/w/tmpdir"), "remove "+h("/w/tmpdir"), "create "+h("/w/tmpdir"), "src.create "+h("/w/tmpdir"),
+				"stat "+h("/w/tmpdir"), "open "+h("/w/tmpdir"), "remove "+h("/w/tmpdir"), "open "+h("/w"), fmt.Sprintf("h.readdirnames %d -1", nh+1), "snapshot")
+			cases = append(cases, corr.Case{Lines: l})
+		}
 		// listings with every page size
 		for _, d := range append([]string{"/"}, c13Dirs...) {
 			for _, n := range []int{-1, 0, 1, 2, 3, 20} {
@@ -275,6 +284,13 @@ func c13Exhaustive(tier string) []corr.Case {
 				l = append(l, "open "+h(d), fmt.Sprintf("h.readdir %d %d", nh+1, n), fmt.Sprintf("h.readdir %d -1", nh+1))
 				cases = append(cases, corr.Case{Lines: l})
 			}
+			// the same through OpenFile, whatever the access mode (the in-memory source opens a directory for writing too):
+			// a listing is a listing
+			l := append([]string{"case re " + pid}, setup...)
+			for k, fl := range []int{0, 2, 1, 0x402, 0x101000} {
+				l = append(l, fmt.Sprintf("openfile %s %d 420", h(d), fl), fmt.Sprintf("h.readdirnames %d 2", nh+k), fmt.Sprintf("h.readdir %d -1", nh+k))
+			}
+			cases = append(cases, corr.Case{Lines: l})
 		}
 	}
 	return cases
